@@ -133,8 +133,8 @@ func NewIVFPQIndex(dim int, distanceKind DistanceKind, nlist int, m int, nbits i
 	}
 
 	// Validate Nbits
-	if nbits <= 0 || nbits > 16 {
-		return nil, fmt.Errorf("parameter Nbits must be in [1,16]")
+	if nbits <= 0 || nbits > 8 {
+		return nil, fmt.Errorf("parameter Nbits must be in [1,8]")
 	}
 
 	// Create distance calculator
